@@ -23,11 +23,11 @@ theorem settle3_aux : ∀ (n : Nat) (l : ALink), mu3 l < n → SafeInv l → Syn
     have hdisc : l.i.st ≠ .disc := by rcases hi with h | h <;> simp [h]
     cases hA : l.toA with
     | cons f rest =>
-      obtain ⟨s1, s2, s3, s4, s5⟩ := step3A hs h hi hA
+      obtain ⟨s1, s2, s3, s4, s5⟩ := step3A hs h hi hA hb
       have hb' : Bounded (astep l (.deliverNext .A)) := by
         unfold Bounded; rw [s3, s4]; exact hb
       obtain ⟨evs, he1, he2⟩ := ih (astep l (.deliverNext .A)) (by omega) (safeInv_step l _ hs hb')
-        (syncInv'_step l _ hs h) s1 s2 hb'
+        (syncInv'_step l _ hs h hb) s1 s2 hb'
       refine ⟨.deliverNext .A :: evs, ?_, he2⟩
       intro e he
       rcases List.mem_cons.1 he with rfl | he
@@ -36,11 +36,11 @@ theorem settle3_aux : ∀ (n : Nat) (l : ALink), mu3 l < n → SafeInv l → Syn
     | nil =>
       cases hI : l.toI with
       | cons f rest =>
-        obtain ⟨s1, s2, s3, s4, s5⟩ := step3I hs h hi hI
+        obtain ⟨s1, s2, s3, s4, s5⟩ := step3I hs h hi hI hb
         have hb' : Bounded (astep l (.deliverNext .I)) := by
           unfold Bounded; rw [s3, s4]; exact hb
         obtain ⟨evs, he1, he2⟩ := ih (astep l (.deliverNext .I)) (by omega) (safeInv_step l _ hs hb')
-          (syncInv'_step l _ hs h) s1 s2 hb'
+          (syncInv'_step l _ hs h hb) s1 s2 hb'
         refine ⟨.deliverNext .I :: evs, ?_, he2⟩
         intro e he
         rcases List.mem_cons.1 he with rfl | he
@@ -92,7 +92,8 @@ theorem recover_from_logon (l : ALink) (hs : SafeInv l) (h : SyncInv' l) (hi : l
       · rw [e1]; omega
       · omega
     have hs1 := safeInv_step l _ hs hb1
-    have hy1 := syncInv'_step l (.deliverNext .A) hs h
+    have hb0 : Bounded l := ⟨by have := hb.1; omega, by have := hb.2; omega⟩
+    have hy1 := syncInv'_step l (.deliverNext .A) hs h hb0
     replace hp2 : P2 (astep l (.deliverNext .A)).i (astep l (.deliverNext .A)).a (astep l (.deliverNext .A)).toI := by
       rw [e1, e2, e4, hI, List.nil_append]; exact hp2
     generalize hl1 : astep l (.deliverNext .A) = l1 at *
@@ -112,7 +113,7 @@ theorem recover_from_logon (l : ALink) (hs : SafeInv l) (h : SyncInv' l) (hi : l
       · rw [e1] at ho2; omega
       · rw [d2]; omega
     have hs2 := safeInv_step l1 _ hs1 hb2
-    have hy2 := syncInv'_step l1 (.deliverNext .I) hs1 hy1
+    have hy2 := syncInv'_step l1 (.deliverNext .I) hs1 hy1 hb1
     have hest2 : est (astep l1 (.deliverNext .I)).a.st := by rw [d2]; exact g2
     obtain ⟨evs, he1, he2⟩ := settle3 _ hs2 hy2 hp3.1.1 hest2 hb2
     refine ⟨.deliverNext .A :: .deliverNext .I :: evs, ?_, ?_⟩
